@@ -77,7 +77,8 @@ func searchFieldName(p *thrift.BinaryProtocol, id string, f *thrift.FieldDescrip
 			return 0, start, wrapError(meta.ErrRead, "", err)
 		}
 		if t == thrift.STOP {
-			return thrift.STRUCT, start, errNotFound
+			// not found: report the position of this struct's STOP, where a new field can be inserted
+			return thrift.STRUCT, p.Read - 1, errNotFound
 		}
 		if f.ID() == thrift.FieldID(i) {
 			// if t != f.Type().Type() {
